@@ -77,6 +77,8 @@ def mk_subjects(decls, cfgs, **opts):
                 continue
             o = dict(opts)
             big = len(d.variants) > 1000
+            if big and suf not in [x[0] for x in cfgs[:2]]:
+                continue        # 65534-variant enums: the first two configurations only (about 10 s of rustc each)
             if big:
                 o["bounds"] = dict(o.get("bounds") or {}, x1_depth=1, x2_extra=0, x2_cap=2, range_x1_depth=1,
                                    range_x2_extra=0, range_pair_step=max(o.get("bounds", {}).get("range_pair_step", 0), 40000003),
@@ -221,7 +223,8 @@ def c06(tier):
         decls = []
         for r in ALL_REPRS:
             decls += family_F(r, 2, 2, 2, renames=False)
-        bounds = dict(x1_depth=4, x2_extra=3, x2_cap=8)
+        bounds = dict(x1_depth=3, x2_extra=3, x2_cap=8)
+        deep_reprs = ("i8", "u8", "i64", "u128")      # full 12-operation alphabet to depth 4 on these
         ldecls = []
         for r in ALL_REPRS:
             ldecls += family_L(r, renames=False)
@@ -229,7 +232,8 @@ def c06(tier):
     subs = []
     for i, d in enumerate(decls):
         for j, (nm, c) in enumerate(iter_cfgs(d)):
-            subs.append(Subj("s%05d_%d" % (i, j), d, c, bounds=bounds))
+            b = dict(bounds, x1_depth=4) if tier == "thorough" and d.repr in deep_reprs else bounds
+            subs.append(Subj("s%05d_%d" % (i, j), d, c, bounds=b))
     for i, d in enumerate(ldecls):
         for j, (nm, c) in enumerate(iter_cfgs(d)):
             if nm == "table_inline" and len(d.variants) > 1000:
@@ -238,7 +242,7 @@ def c06(tier):
     extra = []
     if tier == "thorough":
         f3 = []
-        for r in ("i8", "u8", "i64"):
+        for r in ("i8", "u64"):
             f3 += family_F(r, 3, 3, 3, renames=False)
         for i, d in enumerate(f3):
             for j, (nm, c) in enumerate(iter_cfgs(d)):
